@@ -239,3 +239,75 @@ Example C04_example :
   spec_step id_i64 x0 (SAsg OSet (T1 (IS 7)) (SSc id_i64 (Zx 1))) = MustErr.
 Proof. vm_compute. repeat split. Qed.
 Print Assumptions C04_example.
+
+(* ---- F. the op-assignment kernels as they are in the source (regenerated table) -------------------------------
+   Gen/OpAssignArms.v is rewritten from machines/math/src/op_assign/*.rs, mod.rs and src/core/src/stdlib.rs by
+   translators/opassign_arms.py on every run of this check; the statements below are about THAT table, so a slip in
+   one of the near-identical arms / kernel macros of one operator breaks them whether or not a generated case
+   reaches the arm.  Definitions and the meaning of the checks: Proofs/OpAssignArmsP.v, Proofs/SrcArmsP.v. *)
+From MechV Require Import Model.SrcArms Proofs.SrcArmsP Gen.OpAssignArms Proofs.OpAssignArmsP.
+Import String.
+
+(* F1. the translator recognised every construct it was pointed at (it cannot go blind silently) *)
+Theorem C04_opassign_source_fully_read : oa_unrecognised = [].
+Proof. exact oa_nothing_unrecognised. Qed.
+Print Assumptions C04_opassign_source_fully_read.
+
+(* F2. every compile() of + - * / and of the three forms (x op= e, x[ix] op= e, x[ix,:] op= e) is regular: operands
+       bound to arguments[0], [1], the rest; direct call and every operand-form arm pass (sink, source[, ixes]) with every
+       reference unwrapped; the four operators have the same arm lists *)
+Theorem C04_opassign_compile_arms_regular :
+  forallb compile_ok oa_compile = true /\ oa_compile_complete = true /\ oa_uniform = true.
+Proof. exact (conj (proj1 oa_compile_regular) (conj (proj2 oa_compile_regular) oa_arm_lists_uniform)). Qed.
+Print Assumptions C04_opassign_compile_arms_regular.
+
+(* F3. kernel-level functions, arm macros (field `sink` <- sink pattern, `source` <- source pattern, `ixes` <- index
+       pattern), solve() of the kernel structs and the instantiations (operator token of the file, kernel of the name) *)
+Theorem C04_opassign_kernel_chain_regular :
+  (forallb callee_ok oa_callees = true /\ callees_complete = true /\
+   forallb range_macro_ok oa_range_macros = true /\ List.length oa_range_macros = 2) /\
+  (forallb value_arm_ok oa_value_arms = true /\ oa_value_error_arms = 1 /\
+   forallb (fun e => forallb range_arm_ok (snd (fst e))) oa_range_arms = true /\ range_arm_tables_ok = true) /\
+  (forallb solve_ok oa_solves = true /\ List.length oa_solves = 5 /\
+   forallb (fun e => list_eqb inst_eqb (map (fun x => (snd (fst x), snd x)) (insts_of (fst (fst e)))) (expected_insts (fst (fst e)))) oa_ops = true /\
+   forallb wrapper_ok oa_wrappers = true /\ List.length oa_wrappers = 8).
+Proof. exact (conj oa_callees_regular (conj oa_arms_regular oa_solves_regular)). Qed.
+Print Assumptions C04_opassign_kernel_chain_regular.
+
+(* F4. every kernel macro of every operator is the reference loop nest of its name with the operator token of its file
+       (same bounds, same index expressions, `sink[..] OP= source[..]`) *)
+Theorem C04_opassign_kernels_match_reference : forallb kernel_ok oa_kernels = true /\ kernels_complete = true.
+Proof. exact oa_kernels_regular. Qed.
+Print Assumptions C04_opassign_kernels_match_reference.
+
+(* F5. the kernels an op-assignment can reach (the structs the arm macros build) are uniform over the four operators *)
+Theorem C04_opassign_reachable_kernels_uniform :
+  forall o k site params body, In (o, k, site, params, body) oa_kernels -> reachable_kernel k = true ->
+    exists r, ref_kernel k (op_tok o) = Some r /\ norm body = r.
+Proof. exact oa_reachable_kernels_uniform. Qed.
+Print Assumptions C04_opassign_reachable_kernels_uniform.
+
+(* F6. the element update of every kernel is `sink-place TOK= source-value` with the token of the operator's file, i.e.
+       [lift_m kind op old-sink-element source-element] of the model (sink on the left, no reciprocal) *)
+Theorem C04_opassign_update_is_lift_m :
+  forall o k site params body, In (o, k, site, params, body) oa_kernels ->
+    exists tok p v a,
+      filter (fun x => match x with (_, L "src_i"%string, _) => false | _ => true end) (assignments (norm body)) = [(tok, p, v)] /\
+      sink_place p = true /\ source_value v = true /\ tok = op_tok o /\ aop_of_op o = Some a /\
+      (forall kind old e, elem_update kind tok old e = Some (lift_m kind a old e)) /\
+      In (o, a) [("add"%string, OAdd); ("sub"%string, OSub); ("mul"%string, OMul); ("div"%string, ODiv)].
+Proof. exact kernel_update_is_lift_m. Qed.
+Print Assumptions C04_opassign_update_is_lift_m.
+
+(* F7. meaning of F2 (general lemma Proofs/SrcArmsP.compile_model_correct instantiated): whatever mixture of plain values
+       and references the operands are, compile() applies the kernel-level function of ITS operator and form to the
+       contents of (sink, source[, ixes]) in this order *)
+Theorem C04_opassign_compile_applies_kernel_to_sink_source :
+  forall (A R : Type) (c : cfn) (o form : String.string) (k : String.string -> list (rval A) -> option R) (args : list (rval A)),
+    In c oa_compile -> cf_tag c = [o; form] ->
+    (forall f vs, existsb is_ref vs = true -> k f vs = None) ->
+    List.length args = List.length (roles_of form) ->
+    (forall v, nth_error args 2 = Some v -> is_ref v = false) ->
+    exists r f, resolve_cfn c = Some r /\ callee_of o form = Some f /\ compile_model r k args = k f (map strip args).
+Proof. exact oa_compile_applies_kernel_to_sink_source. Qed.
+Print Assumptions C04_opassign_compile_applies_kernel_to_sink_source.
